@@ -202,7 +202,7 @@ func (m *ctlModel) execStmt(fr *mFrame, s Stmt) completion {
 		}
 		for i := start; i < len(s.Cases); i++ {
 			c := m.execStmts(fr, s.Cases[i].Body)
-			if c.t == cBreak && c.label == s.Label {
+			if c.t == cBreak && (c.label == s.Label || c.label == "") {
 				return normalC
 			}
 			if c.t != cNormal {
@@ -219,6 +219,11 @@ func (m *ctlModel) execStmt(fr *mFrame, s Stmt) completion {
 			return m.execStmts(fr, s.Then)
 		}
 		return m.execStmts(fr, s.Else)
+	case *SBranch:
+		if s.Kind == xContinue {
+			return completion{t: cContinue, label: s.Label}
+		}
+		return completion{t: cBreak, label: s.Label}
 	case *SReturn:
 		v, c := m.eval(fr, s.E)
 		if abruptExpr(c) {
@@ -243,12 +248,12 @@ func loopExit(c completion, label string) (bool, completion) {
 	case cNormal:
 		return false, normalC
 	case cContinue:
-		if c.label == label {
+		if c.label == label || c.label == "" { // an unlabelled continue targets the nearest enclosing loop
 			return false, normalC
 		}
 		return true, c
 	case cBreak:
-		if c.label == label {
+		if c.label == label || c.label == "" { // an unlabelled break targets the nearest enclosing loop or switch
 			return true, normalC
 		}
 		return true, c
@@ -458,6 +463,8 @@ func (m *ctlModel) eval(fr *mFrame, e Expr) (mValue, completion) {
 				return nil, completion{t: cFatal}
 			}
 		}
+	case *EArrayFrom, *ESetSize, *EMapSize:
+		return m.evalConsume(fr, e)
 	case *ETemplate:
 		l := 0
 		for i, p := range e.Parts {
@@ -646,6 +653,63 @@ func (m *ctlModel) evalYieldStar(fr *mFrame, e *EYieldStar) (mValue, completion)
 			received = rc
 		default:
 			return nil, rc
+		}
+	}
+}
+
+// evalConsume: Array.from(iter[, fn]).length, new Set(iter).size, new Map(iter).size - built-ins that iterate and
+// close the iterator when a step of their own fails (IfAbruptCloseIterator).
+func (m *ctlModel) evalConsume(fr *mFrame, e Expr) (mValue, completion) {
+	var iterE Expr
+	fn := ""
+	kind := 0
+	switch e := e.(type) {
+	case *EArrayFrom:
+		iterE, fn, kind = e.Iter, e.Fn, 0
+	case *ESetSize:
+		iterE, kind = e.Iter, 1
+	case *EMapSize:
+		iterE, kind = e.Iter, 2
+	}
+	iterable, c := m.eval(fr, iterE)
+	if abruptExpr(c) {
+		return nil, c
+	}
+	rec, c := m.getIterator(iterable)
+	if c.t != cNormal {
+		return nil, c
+	}
+	n := 0
+	seen := map[string]bool{}
+	for {
+		v, done, c := m.iteratorStep(rec)
+		if c.t != cNormal {
+			return nil, c
+		}
+		if done {
+			if kind == 1 {
+				return len(seen), normalC
+			}
+			return n, normalC
+		}
+		switch kind {
+		case 0:
+			if fn != "" {
+				f := m.funcs[fn]
+				rc := m.execStmts(newFrame(f, []mValue{v, n}), f.Body)
+				if rc.t == cThrow || rc.t == cFatal {
+					return nil, m.iteratorClose(rec, rc)
+				}
+			}
+		case 1:
+			seen[mDescribe(v)] = true
+		case 2:
+			// the item is not an entry object
+			return nil, m.iteratorClose(rec, mTypeErr())
+		}
+		n++
+		if m.tick() {
+			return nil, completion{t: cFatal}
 		}
 	}
 }
